@@ -60,7 +60,10 @@ def main():
         if "stable_with_patch" in conf:
             ran.append(f"53 pinned tests inside the patched scratch worktree -> {conf['stable_with_patch']}")
         else:
-            ran.append("53 pinned tests with the patch: run by the seeding agent (see agent_ran); not repeated by me for this one")
+            tail_p = os.path.join(d, "agent_stable_tail.txt")
+            tails = [l.strip() for l in open(tail_p) if "passed" in l or "failed" in l] if os.path.exists(tail_p) else []
+            ran.append("53 pinned tests with the patch: run by the seeding agent in its worktree, not repeated by me (a run takes 25-60 min here); "
+                       "result lines of the agent's logs (agent_stable_tail.txt): " + (" | ".join(tails[-3:]) if tails else "see agent_ran"))
         for r in runs:
             ran.append(f"VERIF_SEED={r['seed']} VERIF_REPO=<patched worktree> check.py {prop} --tier {r['tier']} {r['args']} --no-evidence -> rc={r['rc']}, "
                        f"{r['violations']} VIOLATION line(s), {r['wall_s']} s" + (": " + " | ".join(r["caught_by"][:2]) if r["caught_by"] else ""))
